@@ -46,4 +46,40 @@ def loadBand {β : Type} (rowMin rowMax : Nat → Nat → Nat → Nat) (img : Li
     let hi := rowMax rows n.toNat i.toNat
     .ok { data := slice img lo hi, naxis2 := hi - lo, crpix2Shift := -(lo : Int) }
 
+
+/-! ### Which image of the file a band is cut from
+
+A FITS file is a list of HDUs; an image HDU with NAXIS ∈ {2,3,4} is held as the list of its 2-D planes in
+C order of the leading axes (a 2-D image has one plane; the code reads `section[cube_index, …]` of a
+3-D image and `section[0, cube_index, …]` of a 4-D one, i.e. plane number `cube_index` in both cases). -/
+
+structure Hdu (β : Type) where
+  naxis : Nat
+  /-- the 2-D planes, each a list of rows -/
+  planes : List (List β)
+
+inductive FileErr | noSuchHdu | tooManyAxes | noSuchPlane | band (e : Err)
+  deriving DecidableEq, Repr
+
+/-- the plane `load_image_band` reads from an HDU -/
+def selectPlane {β : Type} (h : Hdu β) (cube : Nat) : Except FileErr (List β) :=
+  match h.naxis with
+  | 2 => match h.planes[0]? with | some p => .ok p | none => .error .noSuchPlane
+  | 3 => match h.planes[cube]? with | some p => .ok p | none => .error .noSuchPlane
+  | 4 => match h.planes[cube]? with | some p => .ok p | none => .error .noSuchPlane
+  | _ => .error .tooManyAxes
+
+/-- `load_image_band(filename, band=(i, n), hdu_index=hdu, cube_index=cube)` on a file given as its HDUs -/
+def loadBandFile {β : Type} (rowMin rowMax : Nat → Nat → Nat → Nat) (file : List (Hdu β))
+    (hdu cube : Nat) (i n : Int) : Except FileErr (Band β) :=
+  match file[hdu]? with
+  | none => .error .noSuchHdu
+  | some h =>
+    match selectPlane h cube with
+    | .error e => .error e
+    | .ok plane =>
+      match loadBand rowMin rowMax plane i n with
+      | .error e => .error (.band e)
+      | .ok b => .ok b
+
 end Aegean.Model.C20
